@@ -112,7 +112,13 @@ def _lattice():
     C = mk('C', (A,))
     D = mk('D', (B, C))
     E = mk('E', (object,))
-    return {'A': A, 'B': B, 'C': C, 'D': D, 'E': E, 'O': object}
+    out = {'A': A, 'B': B, 'C': C, 'D': D, 'E': E, 'O': object}
+    # a chain of six classes (MRO of seven entries with object): sizes the diamond lattice does not reach - added after a seeded
+    # fault that looked only at the three nearest supertypes for by-name printers
+    prev = object
+    for i in range(1, 7):
+        prev = out['G%d' % i] = mk('G%d' % i, (prev,))
+    return out
 
 
 def _printer(tag):
@@ -189,6 +195,11 @@ def run_real(ops):
 # ---------------------------------------------------------------------------------------------
 # the reference model
 MRO = {'A': ['A'], 'B': ['B', 'A'], 'C': ['C', 'A'], 'D': ['D', 'B', 'C', 'A'], 'E': ['E'], 'O': ['O']}
+for _i in range(1, 7):
+    MRO['G%d' % _i] = ['G%d' % j for j in range(_i, 0, -1)]
+DEEP = ['G1', 'G2', 'G6']
+DEEP_OPS = ([[k, c] for c in DEEP for k in ('reg', 'name', 'print')] +
+            [['isreg', c, cs, cd, rd] for c in DEEP for (cs, cd, rd) in FLAGS if cd or not rd])
 
 
 def mixed_kind(ops):
@@ -427,6 +438,25 @@ def random_history(rng, max_len=12):
     return ops
 
 
+def _deep_shard(arg):
+    """all histories of the given length over the deep chain (classes G1, G2, G6 of the six-class chain)"""
+    first, total_len = arg
+    acc = common.new_acc()
+    warnings.simplefilter('ignore')
+    _real()
+    obs_set = [op for op in DEEP_OPS if op[0] in ('print', 'isreg')]
+    n = 0
+    for mid in itertools.product(DEEP_OPS, repeat=max(0, total_len - 2)):
+        for last in (obs_set if total_len > 1 else [None]):
+            ops = [first] + list(mid) + ([last] if last is not None else [])
+            if ops[-1][0] not in ('print', 'isreg') or mixed_kind(ops):
+                continue
+            n += 1
+            acc['violations'].extend(check_history(ops, acc))
+    acc['counters']['deep_chain_histories_run'] = n
+    return _thin(acc)
+
+
 def _random_shard(arg):
     seed, shard, count = arg
     rng = random.Random(seed * 1000003 + shard * 7919 + 17)
@@ -479,6 +509,7 @@ def run(tier, seed, jobs=16):
     # big shards first
     shards.sort(key=lambda s: -(len(_op_set(s[2], s[3])) ** (s[1] - len(s[0]))))
     results = common.pmap(_exhaustive_shard, shards, jobs)
+    results += common.pmap(_deep_shard, [(op, 3) for op in DEEP_OPS] + [(op, 2) for op in DEEP_OPS], jobs)
     n_shards = 64 if tier == 'quick' else 256
     per = n_random // n_shards
     results += common.pmap(_random_shard, [(seed, s, per) for s in range(n_shards)], jobs)
